@@ -245,8 +245,8 @@ example : MBOK exSplit 64 ∧
     Covers exSplit.distHistos (effMap exSplit.distCmap exSplit.distCmapSize exSplit.dist.numTypes 4) 4
       (remTypes exSplit.dist 0 (exSplit.dist.lengths.getD 0 0)) (distSymsOf exCmds) := by
   refine ⟨⟨?_, ?_, ?_, histosOK_of_B _ _ _ _ (by decide +kernel), histosOK_of_B _ _ _ _ (by decide +kernel),
-    histosOK_of_B _ _ _ _ (by decide +kernel), rfl, fun h => by cases h, fun _ => ⟨rfl, rfl, by decide +kernel⟩,
-    fun _ => rfl, fun h => absurd rfl h⟩, by decide, by decide, by decide,
+    histosOK_of_B _ _ _ _ (by decide +kernel), rfl, (fun h => absurd h (by decide)), (fun _ => ⟨rfl, rfl, by decide +kernel⟩),
+    (fun _ => rfl), (fun h => absurd rfl h)⟩, by decide, by decide, by decide,
     faithful_of_B _ _ _ _ _ _ _ _ (by decide +kernel), covers_of_B _ _ _ _ _ (by decide +kernel),
     covers_of_B _ _ _ _ _ (by decide +kernel), covers_of_B _ _ _ _ _ (by decide +kernel)⟩
   · exact ⟨rfl, rfl, by decide, by decide, rfl, by decide, by decide, by decide, by decide, by decide⟩
